@@ -59,6 +59,8 @@ class Check(PropertyCheck):
                   "(for server->client cases the world first lets the client ask the query each server message answers, so "
                   "that the reply is solicited). `history_preserves` is a theorem about the C27 layer model (tied to the "
                   "code by the C27 check) with acts = []: runs in which addons modify flows are outside C26's statement. "
+                  "Over TCP the code raises when the uncompressed re-encoding of a message exceeds 65535 bytes (F-C26b, code "
+                  "unchanged; classifier: tcp + struct.error + first input message whose reference re-encoded size > 65535). "
                   "Delivery is proved for plain ASCII labels only (labels with xn-- or non-ASCII bytes depend on the idna "
                   "parameter; the oracle's `deliverable` is narrower still). The compressing encoder is covered for sequences of names "
                   "(`reference_compressor_sequence_read`), not for whole messages with record data; there is no theorem about a whole-message compressing encoder "
@@ -95,8 +97,38 @@ class Check(PropertyCheck):
         self.c25 = C25.Check(); self.c25.setup(tier)
         self.known_selftest()
 
+    def known(self, case, obs, failure):
+        """F-C26b: TCP case, the layer raised struct.error (`error`), the failure is the crash clause, and the message being
+        handled when it raised — the first input message whose uncompressed re-encoding (computed from the INPUT by the
+        reference decoder) exceeds 65535 bytes, all messages in front of it fitting — exists"""
+        if not isinstance(obs, dict) or case.get("kind") == "cnames": return None
+        if case.get("transport") != "tcp" or obs.get("state") != "crashed:error": return None
+        if failure != "the layer raised error while forwarding": return None
+        sizes = [D.ref_reencoded_size(unhx(h)) for h in case["msgs_hex"]]
+        for sz in sizes:
+            if sz is None: return None            # a message the specification cannot read in front: not this finding
+            if sz > U16: return "F-C26b"
+        return None
+
     def known_selftest(self):
-        """C26 records no finding: nothing may ever be excused; and the abstain conditions are what they say (literals only)"""
+        """the classifier of F-C26b fires for its witness and for nothing next to it; nothing else is ever excused; the
+        abstain conditions are what they say (literals only, independent of the tree under test)"""
+        big, ok = hx(self._expanding(243)), hx(self._expanding(242))
+        assert D.ref_reencoded_size(unhx(big)) == 65638 and D.ref_reencoded_size(unhx(ok)) == 65369
+        crash = "the layer raised error while forwarding"
+        T = [({"transport": "tcp", "dir": "s2c", "msgs_hex": [big]}, {"state": "crashed:error", "out": []}, crash, "F-C26b"),
+             ({"transport": "tcp", "dir": "c2s", "msgs_hex": [ok, big]}, {"state": "crashed:error", "out": []}, crash, "F-C26b"),
+             # same input, other failure clause / other exception / other transport
+             ({"transport": "tcp", "dir": "s2c", "msgs_hex": [big]}, {"state": "sent", "out": ["00"]}, "message 0: reference decoder reads x instead of y", None),
+             ({"transport": "tcp", "dir": "s2c", "msgs_hex": [big]}, {"state": "crashed:KeyError", "out": []}, "the layer raised KeyError while forwarding", None),
+             ({"transport": "udp", "dir": "s2c", "msgs_hex": [big]}, {"state": "crashed:error", "out": []}, crash, None),
+             ({"transport": "tcp", "dir": "s2c", "msgs_hex": [big]}, {"state": "closed", "out": []}, "well-formed plain message(s) not delivered: closed, 0 of 1", None),
+             # neighbouring input: one record fewer fits the frame; an unreadable message in front
+             ({"transport": "tcp", "dir": "s2c", "msgs_hex": [ok]}, {"state": "crashed:error", "out": []}, crash, None),
+             ({"transport": "tcp", "dir": "s2c", "msgs_hex": ["00ff", big]}, {"state": "crashed:error", "out": []}, crash, None)]
+        for case, obs, failure, want in T:
+            got = self.known(case, obs, failure)
+            assert got == want, f"known_selftest: {failure!r} on {case['transport']}/{len(case['msgs_hex'])} msgs classified {got}, expected {want}"
         for f in ("message 0: reference decoder reads x instead of y", "1 messages in, 0 out (sent)",
                   "well-formed plain message(s) not delivered: closed, 0 of 1", "the layer raised KeyError while forwarding"):
             assert self.known({"transport": "udp", "dir": "c2s", "msgs_hex": ["00"]}, {"state": "sent", "out": []}, f) is None
@@ -180,6 +212,22 @@ class Check(PropertyCheck):
             glue.append(([b"x%d" % i] + late[1:], 1, 1, 60, [("b", b"\x01\x02\x03\x04")]))
         return D.build_wire({"id": 0x4242, "flags": 0x8400, "q": [(q, 252, 1)], "an": recs, "ns": [], "ar": glue}, compress=True)
 
+    def _expanding(self, k, rdata=b"\xc0\x00\x02\x01", ty=1):
+        """a small, heavily compressed answer: a 255-byte question name and k records whose owner is a pointer to it;
+        re-encoded without compression it has 12 + 259 + k * (265 + len(rdata)) bytes"""
+        name = [b"a" * 63, b"b" * 63, b"c" * 63, b"d" * 61]
+        return D.build_wire({"id": 0x1111, "flags": 0x8180, "q": [(name, ty, 1)],
+                             "an": [(name, ty, 1, 60, [("b", rdata)]) for _ in range(k)], "ns": [], "ar": []}, compress=True)
+
+    def _expanding_cases(self):
+        # 242 records re-encode to 65369 bytes (fits a TCP frame), 243 to 65638 (does not): finding F-C26b
+        for k in (242, 243, 300):
+            m = hx(self._expanding(k))
+            yield {"transport": "tcp", "dir": "s2c", "msgs_hex": [m]}
+            yield {"transport": "tcp", "dir": "c2s", "msgs_hex": [m]}
+            yield {"transport": "udp", "dir": "s2c", "msgs_hex": [m]}
+        yield {"transport": "tcp", "dir": "s2c", "msgs_hex": [hx(self._expanding(2)), hx(self._expanding(250))]}
+
     def _large_cases(self):
         late = [b"ns1", b"dns-host", b"net"]
         for first_at in (16383, 16384, 16385, 16500, 20000, 33000):
@@ -193,7 +241,13 @@ class Check(PropertyCheck):
     def generate(self, rng, tier):
         # messages whose names first appear beyond the reach of a 14-bit compression pointer (offset >= 16384)
         for c in self._large_cases(): yield c
+        for c in self._expanding_cases(): yield c
         while True:
+            if rng.chance(0.004):    # small compressed messages whose uncompressed re-encoding is around / beyond 64 KiB
+                yield {"transport": rng.pick(["tcp", "tcp", "udp"]), "dir": rng.pick(["c2s", "s2c"]),
+                       "msgs_hex": [hx(self._expanding(rng.pick([200, 240, 242, 243, 244, 260, rng.randint(230, 400)]),
+                                                       bytes(rng.getrandbits(8) for _ in range(rng.randint(0, 6))), rng.pick([1, 16, 99])))]}
+                continue
             if rng.chance(0.03):     # the reference compressing encoder (Lean `cnames`) against the harness's Compressor
                 base = [rng.pick(HOST + ODD) for _ in range(rng.randint(0, 3))]
                 names = []
@@ -214,6 +268,7 @@ class Check(PropertyCheck):
 
     def exhaustive(self, tier):
         yield from self._large_cases()
+        yield from self._expanding_cases()
 
     # ------------------------------------------------------------------ implementation: the real DNSLayer in the world
     @staticmethod
